@@ -37,6 +37,12 @@ RULE = ("rounds of 2..16 client threads, each opening real TCP connections to on
         "10.5..61 s of virtual time: an answer that is given up on still arrives and would be "
         "read as the answer to the next exchange. Slow-sender rounds have clients that connect "
         "and send their request line 0.3..0.8 s later, whole or in two pieces")
+RULE_ADDED = (
+              'Also: link-fault rounds with unplug / silence / replug; rounds over the TCP transport '
+              'with an answer later than the socket time-out would be; slow senders; a failing '
+              'uiHeartbeat followed by 7.5..12 s of steady traffic; device state as a function of an '
+              'epoch, advances refused by the device ')
+RULE = RULE + " " + RULE_ADDED.strip()
 ASSUMPTIONS = [
     "schedules are those the OS produces under injected device delays; not enumerated",
     "a client whose connection times out is left open in the history (counted, not judged)",
